@@ -394,6 +394,7 @@ macro_rules! reuse {
             cases_quick: $q,
             cases_thorough: $t,
             max_shrink_iters: 800,
+            limit_factor: 1,
             strategy: $strat,
             check: panic_only($f),
         })
@@ -428,6 +429,7 @@ pub fn def() -> PropDef {
                 cases_quick: 800,
                 cases_thorough: 8_000,
                 max_shrink_iters: 200,
+                limit_factor: 1,
                 strategy: || extreme_strategy(false),
                 check: |c: &Extreme, info: &mut CaseInfo| match crate::kit::runner::guard(|| run_extreme(c, info)) {
                     Err(e) if e.clause.starts_with("panic:") => Err(Fail { clause: format!("C17.{}", e.clause), detail: e.detail }),
